@@ -1247,3 +1247,13 @@ package larking
 //@   count sets `s.params.set(`
 //@   assert atcall `s.params.set(` [params-after-body C07] (hb ==> decodes == 1) && sets == 0
 //@   ensures [params-applied-to-the-first-message C07] err == nil && first && !hb ==> sets == 1
+
+// ---------------------------------------------------------------------------
+// Service-config selectors (C19, the per-node discipline): a rule stored at a
+// node of the selector trie applies to the name that ends at that node; only
+// wildcard selectors ("pkg.*", "*") reach the names below it. getRules collects
+// a node's own rules only when the looked-up name ends there.
+//@ func (*ruleSelector).getRules serves C19 partial ghost
+//@   requires r != nil
+//@   assert atcall `append(rules, r.rules...)` [exact-selectors-apply-only-to-their-own-name C19] len(name) == 0
+//@   witness verifWitnessSelectorLeak
